@@ -42,6 +42,15 @@ Init ==
        \/ \E t \in Tbls : \E u \in Tbls : \E v \in Tbls : \E a1 \in BOOLEAN : \E a2 \in BOOLEAN : \E w \in {NoWin, <<2, 1>>} :
             cs = [fam |-> "union3", doc |-> Doc3(t, u, v),
                   q |-> Union(Union(Branch("t", None), Branch("u", None), a1, NoWin), Branch("v", None), a2, w)]
+       \* a nested union with a window of its own (parenthesised): its LIMIT applies to its own combined, de-duplicated rows
+       \/ \E t \in Tbls : \E u \in Tbls : \E v \in Tbls : \E a1 \in BOOLEAN : \E a2 \in BOOLEAN : \E wi \in {<<2, -1>>, <<1, 1>>} : \E left \in BOOLEAN :
+            cs = [fam |-> "union3", doc |-> Doc3(t, u, v),
+                  q |-> IF left THEN Union(Union(Branch("t", None), Branch("u", None), a1, wi), Branch("v", None), a2, NoWin)
+                                ELSE Union(Branch("v", None), Union(Branch("t", None), Branch("u", None), a1, wi), a2, NoWin)]
+       \* DISTINCT over grouped rows: groups that agree on the selected columns give one row
+       \/ \E tbl \in SeqsUpTo(DPool, MaxRows) : \E sl \in {<<Item(Col("a"), "")>>, <<Item(Col("b"), "")>>, <<Item(Col("a"), ""), Item(Col("b"), "")>>, <<Item(Col("b"), "k"), Item(Agg("count", <<>>), "c")>>} :
+            cs = [fam |-> "distinct", doc |-> Doc1("t", tbl),
+                  q |-> [BaseQ EXCEPT !.sel = sl, !.distinct = TRUE, !.group = <<"a", "b">>]]
     /\ EngineInit
 
 Next == EngineNext
@@ -75,7 +84,8 @@ UnionLaw ==
 
 \* chains of one kind are associative
 Assoc ==
-    (Ok /\ cs.fam = "union3" /\ cs.q.all = cs.q.l.all) =>
+    \* (left-nested chains whose inner union has no window of its own)
+    (Ok /\ cs.fam = "union3" /\ cs.q.l.k = "union" /\ cs.q.l.limit = -1 /\ cs.q.l.offset = -1 /\ cs.q.all = cs.q.l.all) =>
         LET a == cs.q.l.l
             b == cs.q.l.r
             c == cs.q.r
